@@ -797,6 +797,12 @@ pub fn run_step(env: &Env, ctx: &mut ThreadCtx, idx: usize, step: &Step) -> Step
 		Step::ProbeFaulted { fallback } => {
 			executed = step_probe_faulted(env, ctx, *fallback);
 		}
+		Step::MutateThenLock { .. } => {
+			// no longer expressible: since the fix in /repo the mutable accessors
+			// of a by-reference retrying collection do not compile (decided by the
+			// TYPES family C01-mutation-after-check)
+			executed = false;
+		}
 	}
 	illegal_release_findings(env, n0);
 	if env.opts.faults {
